@@ -6,6 +6,9 @@
 LANE=$1; shift
 L=/tmp/wt/lane-$LANE; W=$L/repo; LOG=/tmp/wt/lane-$LANE.log
 mkdir -p $L; : > $LOG
+# the lane runs the checks from a snapshot of /verif's committed state (edits in progress cannot break a lane)
+rm -rf $L/verif; mkdir -p $L/verif; git -C /verif archive HEAD | tar -x -C $L/verif
+echo "lane $LANE: /verif at $(git -C /verif rev-parse --short HEAD)" >> $LOG
 export VERIF_JOBS=${LANE_JOBS:-6}
 for P in "$@"; do
   for M in /tmp/wt/$P/mutants/${ONLY_M:-m*}; do
@@ -30,7 +33,7 @@ for P in "$@"; do
     git -C /repo worktree remove --force $W 2>/dev/null
     git -C /repo worktree add -q $W HEAD; cp /repo/Cargo.lock $W/
     git -C $W apply $M/patch.diff
-    ( cd /verif; VERIF_REPO=$W VERIF_BUILD=$L/build VERIF_OUT=$L/out timeout ${TRY_TIMEOUT:-2400} ./check $P --tier ${TIER:-quick} > $L/try.log 2>&1; rc=$?
+    ( cd $L/verif; VERIF_REPO=$W VERIF_BUILD=$L/build VERIF_OUT=$L/out timeout ${TRY_TIMEOUT:-2400} ./check $P --tier ${TIER:-quick} > $L/try.log 2>&1; rc=$?
       grep -E "^(VIOLATION|KNOWN-FINDING|INCONCLUSIVE|ENCODING|VACUOUS|BUILD-FAILURE|SOLVER|ENGINE)" $L/try.log | cut -c1-220 | head -8
       grep -E "^C[0-9]+ tier=" $L/try.log | head -1 | cut -c1-250
       echo "RESULT rc=$rc"; cp $L/try.log $L/try-$P-$(basename $M).log )
